@@ -1,6 +1,6 @@
 (* C10 — defaults, annotations and kinds of combined parameters. *)
 From Sigtools.Model Require Import Base Bind Roles Algebra.
-From Sigtools.Proofs Require Import SmallModel Basics.
+From Sigtools.Proofs Require Import SmallModel Basics ProvKeys Contrib.
 
 Theorem C10_optional_iff l r : has_def (concile l r) = has_def l && has_def r.
 Proof. exact (concile_optional_iff l r). Qed.
@@ -26,3 +26,31 @@ Print Assumptions C10_annotation.
 Theorem C10_name_kind l r : pname (concile l r) = pname l /\ pkind (concile l r) = pkind l.
 Proof. exact (concile_name_kind l r). Qed.
 Print Assumptions C10_name_kind.
+
+(* ---- the contributor theorem for merge, all signatures (Proofs/Contrib.v): every result parameter is a
+   contributor's parameter or the conciliation of two, with the stated rules for default, annotation and
+   kind; by name for consistently named inputs ---- *)
+Theorem C10_merge2_contrib : forall a b r : sigT, merge [a; b] = Ok r -> Forall (contrib_of (params a) (params b)) (params r).
+Proof. exact @Contrib.merge2_contrib. Qed.
+Print Assumptions C10_merge2_contrib.
+
+Theorem C10_merge2_rules : forall (a b r : sigT) (p : param), merge [a; b] = Ok r -> In p (params r) -> (exists q : param, (In q (params a) \/ In q (params b)) /\ pname p = pname q /\ kind_ok (pkind q) (pkind p) /\ pdef p = pdef q /\ pann p = pann q /\ puann p = puann q) \/ (exists q1 q2 : param, (In q1 (params a) /\ In q2 (params b) \/ In q1 (params b) /\ In q2 (params a)) /\ partner_ok q1 q2 /\ pname p = pname q1 /\ kind_ok (pkind q1) (pkind p) /\ has_def p = has_def q1 && has_def q2 /\ (forall d : N, pdef p = Some d -> exists d1 d2 : N, pdef q1 = Some d1 /\ pdef q2 = Some d2 /\ (d1 = d2 /\ d = d1 \/ d1 <> d2 /\ d = 0)) /\ (pann p, puann p) = match pann q1 with | Some x => match pann q2 with | Some y => if x =? y then (Some x, puann q1) else (None, UEmpty) | None => (Some x, puann q1) end | None => match pann q2 with | Some y => (Some y, puann q2) | None => (None, UEmpty) end end).
+Proof. exact @Contrib.merge2_rules. Qed.
+Print Assumptions C10_merge2_rules.
+
+Theorem C10_merge2_optional : forall (a b r : sigT) (p : param), merge [a; b] = Ok r -> In p (params r) -> has_def p = true -> exists q : param, (In q (params a) \/ In q (params b)) /\ pname p = pname q /\ has_def q = true.
+Proof. exact @Contrib.merge2_optional. Qed.
+Print Assumptions C10_merge2_optional.
+
+Theorem C10_merge2_kind : forall (a b r : sigT) (p : param), merge [a; b] = Ok r -> In p (params r) -> exists q : param, (In q (params a) \/ In q (params b)) /\ pname p = pname q /\ kind_ok (pkind q) (pkind p).
+Proof. exact @Contrib.merge2_kind. Qed.
+Print Assumptions C10_merge2_kind.
+
+Theorem C10_merge2_by_name : forall a b : sigT, valid_sig (params a) = true -> valid_sig (params b) = true -> name_aligned (params a) (params b) = true -> role_consistent [params a; params b] = true -> forall (r : sigT) (p : param), merge [a; b] = Ok r -> In p (params r) -> is_named p = true -> match find_param (pname p) (params a) with | Some qa => match find_param (pname p) (params b) with | Some qb => restr (concile qa qb) p | None => restr qa p end | None => match find_param (pname p) (params b) with | Some qb => restr qb p | None => False end end.
+Proof. exact @Contrib.merge2_by_name. Qed.
+Print Assumptions C10_merge2_by_name.
+
+Theorem C10_merge2_by_name_needs_consistency : exists (a b r : sigT) (p : param), valid_sig (params a) = true /\ valid_sig (params b) = true /\ merge [a; b] = Ok r /\ In p (params r) /\ is_named p = true /\ (exists qa qb : param, find_param (pname p) (params a) = Some qa /\ find_param (pname p) (params b) = Some qb /\ ~ restr (concile qa qb) p /\ src_get (srcs r) (pname p) = [100] /\ src_get (srcs b) (pname p) = [101]).
+Proof. exact @Contrib.merge2_by_name_needs_consistency. Qed.
+Print Assumptions C10_merge2_by_name_needs_consistency.
+
